@@ -18,7 +18,7 @@ def run(ctx):
     thorough = ctx.tier == 'thorough'
     corr.rule = ('generated well-formed replays of every layout version (directed: zero frames, no metadata, no end, no gecko, doubled end, absent characters, '
                  'rollbacks, items) x {none, LZ4, ZSTD} x {hash requested or not}: slippi::read -> peppi::write -> peppi::read -> slippi::write; oracle: output bytes '
-                 '== input bytes, hash and quirks after the trip == before')
+                 '== input bytes, hash and quirks after the trip == before; plus metadata nested 1..200 deep: accepted implies the trip is lossless')
     reps = []
     for v in synth.BOUNDARY_VERSIONS:
         for shape in (['zero', 'nometa', 'noend', 'nogecko', 'double'] if thorough else [rng.choice(['zero', 'nometa', 'noend', 'double'])]):
@@ -63,5 +63,30 @@ def run(ctx):
         exp_q = '1' if r.end == 'double' else 'none'
         if d.get('g2.quirks') != exp_q:
             fail('quirks after the trip %s, before %s' % (d.get('g2.quirks'), exp_q)); continue
+    # the deepest metadata nesting: whatever the .slp reader accepts must survive the trip (the JSON reader of the .slpp side has its own
+    # recursion limit, so the two limits must fit together); a depth the .slp reader refuses is outside the property
+    deep = []
+    for dpt in (1, 64, 126, 127, 128, 129, 200):
+        r = synth.gen_wf(rng, rng.choice(synth.BOUNDARY_VERSIONS), nframes=1, gecko=0, metadata=None)
+        b = synth.emit(r)
+        b = b[:-1] + b'U\x08metadata{' + b'U\x01n{' * (dpt - 1) + b'U\x01xl\x00\x00\x00\x01' + b'}' * (dpt - 1) + b'}' + b'}'
+        deep.append(('deep%d' % dpt, [b.hex(), rng.choice(['-', 'h']), rng.choice('nlz'), '-']))
+    dres = core.run_parallel(R.run_pvh, 'slpp', deep, n=4, timeout_ms=60000)
+    for cid, f in deep:
+        corr.seen(cid + f[0][:32] + f[2]); corr.count('deep_metadata')
+        out = dres.get(cid) or ['?']
+        d = dump_dict(out)
+        dpt = int(cid[4:])
+        why = None
+        if out[0].startswith('ERR'):
+            corr.count('deep_metadata_refused_by_slp_reader'); continue      # not an accepted replay: outside this property (C16 checks the limit)
+        elif out[0] != 'OK':
+            why = 'metadata nested %d deep: %s' % (dpt, [l[:120] for l in out[:2]])
+        elif not d.get('slpp.write', '').startswith('OK') or d.get('slpp.read') != 'OK' or d.get('slp2_identical') != '1':
+            why = ('metadata nested %d deep is accepted from .slp but does not survive .slp -> .slpp -> .slp: %s'
+                   % (dpt, [l[:120] for l in out if l.startswith(('slpp.', 'slp2', 'PANIC', 'ABORT', 'HANG', 'err.'))][:3]))
+        if why:
+            corr.oracle_failures.append((cid, why, {'mode': 'slpp', 'fields': [f[0][:2000] + '...'] + f[1:], 'replay_hex': f[0],
+                                                    'rerun': 'pvh slpp <file: x <replay_hex> %s %s ->' % (f[1], f[2])}))
     corr.sample({'version': list(reps[0].ver), 'frames': len(reps[0].frames), 'compression': 'each of n,l,z'})
     return corr
